@@ -6,6 +6,7 @@ package main
 import (
 	"bytes"
 	"fmt"
+	"math"
 	"math/rand"
 	"strings"
 
@@ -182,14 +183,51 @@ func (e *genEnv) table(r *rand.Rand, follower bool) []byte {
 
 // ---- valid building blocks ---------------------------------------------------------------------
 
+// hugeLimits: legal (non-negative) limits no table can ever satisfy. The API documents limit as
+// "a limit on the number of keys returned", any int64 >= 0 is a valid value. (Values around
+// 2^31..2^40 are left out on purpose: should a server size something by them, it would take the
+// sandbox's memory with it instead of failing fast.)
+var hugeLimits = []int64{math.MaxInt64, math.MaxInt64 - 1, 1 << 62, 1 << 45, 1 << 48, math.MaxInt64}
+
+func hugeLimit(r *rand.Rand) int64 { return hugeLimits[r.Intn(len(hugeLimits))] }
+
+// maxLimit returns the largest limit found anywhere in a message (0 when there is none).
+func maxLimit(msg any) int64 {
+	var mx int64
+	switch m := msg.(type) {
+	case *pb.RangeRequest:
+		if m != nil {
+			mx = m.Limit
+		}
+	case *pb.TxnRequest:
+		if m == nil {
+			break
+		}
+		for _, ops := range [][]*pb.RequestOp{m.Success, m.Failure} {
+			for _, op := range ops {
+				if g := op.GetRequestRange(); g != nil && g.Limit > mx {
+					mx = g.Limit
+				}
+			}
+		}
+	}
+	return mx
+}
+
 func (e *genEnv) validRange(r *rand.Rand, follower bool) *pb.RangeRequest {
 	k := e.key(r)
 	if r.Intn(8) == 0 {
 		k = []byte{0}
 	}
 	m := &pb.RangeRequest{Table: e.table(r, follower), Key: k, RangeEnd: e.rangeEnd(r, k)}
-	if r.Intn(3) == 0 {
+	switch x := r.Intn(12); {
+	case x < 4:
 		m.Limit = int64(r.Intn(4))
+	case x == 4:
+		m.Limit = hugeLimit(r)
+		if r.Intn(2) == 0 {
+			m.Key, m.RangeEnd = []byte{0}, []byte{0} // the whole table: certainly not an empty range
+		}
 	}
 	switch r.Intn(6) {
 	case 0:
@@ -221,8 +259,14 @@ func (e *genEnv) opPut(r *rand.Rand) *pb.RequestOp {
 func (e *genEnv) opRange(r *rand.Rand) *pb.RequestOp {
 	k := e.key(r)
 	g := &pb.RequestOp_Range{Key: k, RangeEnd: e.rangeEnd(r, k)}
-	if r.Intn(3) == 0 {
+	switch x := r.Intn(12); {
+	case x < 4:
 		g.Limit = int64(r.Intn(4))
+	case x == 4:
+		g.Limit = hugeLimit(r)
+		if r.Intn(2) == 0 {
+			g.Key, g.RangeEnd = []byte{0}, []byte{0}
+		}
 	}
 	switch r.Intn(6) {
 	case 0:
